@@ -404,6 +404,27 @@ Corrupt_Lens ==
                              \o run \o run, k)
             [] OTHER -> Bad(bits \o hdr \o DynHeaderBits(257, Len(d1), sq, FALSE, "all19"), k)
 
+\* a dynamic header that is valid in every respect except that its LAST code-length item is a run
+\* (17: zeros, or 16: repeat previous) reaching past HLIT + HDIST; clamped to the announced count it
+\* would be a perfectly good header, and a literal and the end-of-block code follow
+Corrupt_RunPastEnd ==
+  /\ CanStartBlock
+  /\ \E k \in {"zeros", "repeat"} :
+       LET lgood == MkLens(257, <<65, 66, 256, 100>>, "balanced")
+           \* zeros: two distance lengths announced, a run of three zeros written
+           \* repeat: distance lengths 1,1 announced as <<1>> followed by "repeat previous x3"
+           items == PlainEnc(lgood) \o (IF k = "zeros" THEN <<<<17, 0, 3>>>> ELSE <<<<1, 0, 0>>, <<16, 0, 2>>>>)
+           cl == ClAll19
+           clcw == AssignCodes(cl)
+           RECURSIVE IB(_)
+           IB(i) == IF i > Len(items) THEN <<>>
+                    ELSE SymBits(cl, clcw, items[i][1]) \o LsbBits(items[i][2], items[i][3]) \o IB(i + 1)
+           RECURSIVE CB(_)
+           CB(j) == IF j > 19 THEN <<>> ELSE LsbBits(cl[ClOrder[j] + 1], 3) \o CB(j + 1)
+           lcwg == AssignCodes(lgood)
+       IN Bad(bits \o HdrBits(TRUE, 2) \o LsbBits(0, 5) \o LsbBits(1, 5) \o LsbBits(15, 4) \o CB(1) \o IB(1)
+                   \o SymBits(lgood, lcwg, 65) \o SymBits(lgood, lcwg, 256), "len_run_overflow")
+
 \* undefined length / distance symbols of the fixed code
 Corrupt_Symbol ==
   /\ ph = "tokens" /\ ll = FixedLitLens
@@ -468,7 +489,7 @@ GNext ==
   \/ EmitRun(128)
   \/ GenEndBlock
   \/ Finish
-  \/ Corrupt_ZlibHeader \/ Corrupt_BlockType3 \/ Corrupt_StoredLen \/ Corrupt_TableSizes \/ Corrupt_Lens
+  \/ Corrupt_ZlibHeader \/ Corrupt_BlockType3 \/ Corrupt_StoredLen \/ Corrupt_TableSizes \/ Corrupt_Lens \/ Corrupt_RunPastEnd
   \/ Corrupt_Symbol \/ Corrupt_DistBeforeStart \/ Corrupt_UnusedCode \/ Corrupt_Trailer \/ Corrupt_StaleDistCode
 
 \* the stream as bytes
